@@ -174,6 +174,13 @@ pub struct Driver<const N: usize> {
     /// older complete index files per blob id: (described blob size, content)
     pub index_history: HashMap<u64, Vec<(u64, Vec<u8>)>>,
     pub log: Vec<String>,
+    /// trace recorder (installed as the process-global tap by the caller)
+    pub rec: Option<std::sync::Arc<crate::tap::Recorder>>,
+    /// id of the blob that was active before the last close-like call (for the trace)
+    pub last_active: i64,
+    /// byte snapshots of every blob file ever seen (C07), by blob id
+    pub snaps: HashMap<u64, Vec<u8>>,
+    pub snapshots_on: bool,
 }
 
 pub fn blob_path(dir: &Path, id: u64) -> PathBuf {
@@ -232,6 +239,10 @@ impl<const N: usize> Driver<N> {
             rng: StdRng::seed_from_u64(seed),
             index_history: HashMap::new(),
             log: Vec::new(),
+            rec: None,
+            last_active: -1,
+            snaps: HashMap::new(),
+            snapshots_on: false,
         }
     }
 
@@ -291,16 +302,40 @@ impl<const N: usize> Driver<N> {
 
     pub async fn open(&mut self, lazy: bool) -> Result<(), String> {
         let mut st: Storage<ArrayKey<N>> = self.builder().build().map_err(|e| format!("build: {e:#}"))?;
+        self.ev("call", "init", -1, true);
         let r = if lazy { st.init_lazy().await } else { st.init().await };
+        self.ev("ret", "init", -1, r.is_ok());
         r.map_err(|e| format!("init: {e:#}"))?;
         self.storage = Some(st);
         self.settle().await
     }
 
+    /// driver-side trace event
+    pub fn ev(&self, ev: &str, op: &str, id: i64, ok: bool) {
+        if let Some(r) = &self.rec {
+            r.driver_event(ev, op, id, ok, 0);
+        }
+    }
+
+    /// id of the active blob as the storage reports it through its files: the highest blob
+    /// id in the work directory when an active blob exists (spec: OrderLemma)
+    async fn active_id(&self) -> i64 {
+        match &self.storage {
+            Some(st) if st.records_count_in_active_blob().await.is_some() => {
+                list_files(&self.dir).iter().filter(|f| !f.1).map(|f| f.0 as i64).max().unwrap_or(-1)
+            }
+            _ => -1,
+        }
+    }
+
     /// wait for background quiescence according to the configuration
     pub async fn settle(&mut self) -> Result<(), String> {
         if self.cfg.wait {
-            wait_quiescent(self.cfg.deferred_fires, QUIESCE_DEADLINE).await
+            let r = wait_quiescent(self.cfg.deferred_fires, QUIESCE_DEADLINE).await;
+            if r.is_ok() && pearl::verif::PROBE.deferred.load(std::sync::atomic::Ordering::SeqCst) == 0 {
+                self.ev("quiescent", "", -1, true);
+            }
+            r
         } else {
             // messages processed, dumps may still be running
             wait_msgs(QUIESCE_DEADLINE).await
@@ -313,6 +348,23 @@ impl<const N: usize> Driver<N> {
 
     /// Execute one abstract action; returns the abstract return value.
     pub async fn exec(&mut self, act: &ActJ, vid: u64) -> Result<ResJ, String> {
+        if self.rec.is_some() && matches!(act.a.as_str(), "close_active" | "restart") {
+            self.last_active = self.active_id().await;
+        }
+        if act.a != "restart" {
+            self.ev("call", &act.a, -1, true);
+        }
+        let r = self.exec_inner(act, vid).await?;
+        if act.a != "restart" {
+            let id = if act.a == "close_active" { self.last_active } else { -1 };
+            self.ev("ret", &act.a, id, r.t != "err");
+            self.settle().await?;
+        }
+        self.remember_indexes();
+        Ok(r)
+    }
+
+    async fn exec_inner(&mut self, act: &ActJ, vid: u64) -> Result<ResJ, String> {
         let r = match act.a.as_str() {
             "write" => {
                 let len = size_of_class(&act.s, N, act.m, vid);
@@ -410,17 +462,16 @@ impl<const N: usize> Driver<N> {
             }
             other => return Err(format!("unknown action {other}")),
         };
-        if act.a != "restart" {
-            self.settle().await?;
-        }
-        self.remember_indexes();
         Ok(r)
     }
 
     pub async fn shutdown(&mut self, graceful: bool) -> Result<(), String> {
         if let Some(st) = self.storage.take() {
             if graceful {
-                if let Err(e) = st.close().await {
+                self.ev("call", "close", -1, true);
+                let res = st.close().await;
+                self.ev("ret", "close", self.last_active, res.is_ok());
+                if let Err(e) = res {
                     self.log.push(format!("close error: {e:#}"));
                     return Err(format!("close failed: {e:#}"));
                 }
@@ -485,6 +536,10 @@ impl<const N: usize> Driver<N> {
             }
             let blob_len = std::fs::metadata(blob_path(&self.dir, id)).map(|m| m.len()).unwrap_or(0);
             let mut done = false;
+            // the index file is about to be changed behind the storage's back: tell the trace
+            if let Some(r) = &self.rec {
+                r.file_event("damage", &format!("i{}", id), "index", id as i64);
+            }
             if class == "stale" {
                 if let Some(h) = self.index_history.get(&id) {
                     if let Some((_, content)) = h.iter().rev().find(|(bs, _)| *bs < blob_len) {
@@ -544,6 +599,12 @@ impl<const N: usize> Driver<N> {
 
     /// Observe the real storage and compare with the expected observables.
     pub async fn compare(&mut self, step: usize, action: &str, exp: &ObsJ, out: &mut Vec<Mismatch>) {
+        self.ev("call", "query", -1, true);
+        self.compare_inner(step, action, exp, out).await;
+        self.ev("ret", "query", -1, true);
+    }
+
+    async fn compare_inner(&mut self, step: usize, action: &str, exp: &ObsJ, out: &mut Vec<Mismatch>) {
         let mut mm = |kind: String, expected: Value, got: Value| {
             out.push(Mismatch { step, action: action.to_string(), kind, expected, got });
         };
@@ -736,6 +797,50 @@ impl<const N: usize> Driver<N> {
         let alive = pearl::verif::PROBE.workers_alive.load(std::sync::atomic::Ordering::SeqCst) > 0;
         if alive != exp.alive {
             mm("worker_alive".into(), json!(exp.alive), json!(alive));
+        }
+    }
+
+    /// C07 (hook-free part): the earlier content of every blob file is a prefix of its current
+    /// content, in the work directory or moved unchanged to the corrupted directory; no file
+    /// with a known id appears with different leading bytes (id reuse).
+    pub fn check_snapshots(&mut self, step: usize, action: &str, out: &mut Vec<Mismatch>) {
+        if !self.snapshots_on {
+            return;
+        }
+        let mut now: HashMap<u64, Vec<u8>> = HashMap::new();
+        let mut dup: Vec<u64> = Vec::new();
+        for dir in [self.dir.clone(), self.dir.join(CORRUPTED_DIR)] {
+            for (id, is_index, p) in list_files(&dir) {
+                if is_index {
+                    continue;
+                }
+                if let Ok(b) = std::fs::read(&p) {
+                    if now.insert(id, b).is_some() {
+                        dup.push(id);
+                    }
+                }
+            }
+        }
+        for id in dup {
+            out.push(Mismatch { step, action: action.to_string(), kind: "blob_bytes.duplicate_id".into(),
+                expected: json!("one file per blob id"), got: json!(format!("blob {id} exists in the work dir and in the corrupted dir")) });
+        }
+        for (id, old) in self.snaps.iter() {
+            match now.get(id) {
+                None => out.push(Mismatch { step, action: action.to_string(), kind: "blob_bytes.missing".into(),
+                    expected: json!(format!("blob {id} with {} bytes", old.len())), got: json!("file is gone") }),
+                Some(cur) => {
+                    if cur.len() < old.len() || cur[..old.len()] != old[..] {
+                        let first = old.iter().zip(cur.iter()).position(|(a, b)| a != b).unwrap_or(cur.len().min(old.len()));
+                        out.push(Mismatch { step, action: action.to_string(), kind: "blob_bytes.changed".into(),
+                            expected: json!(format!("blob {id}: earlier {} bytes are a prefix", old.len())),
+                            got: json!(format!("length {} , first difference at byte {}", cur.len(), first)) });
+                    }
+                }
+            }
+        }
+        for (id, cur) in now {
+            self.snaps.insert(id, cur);
         }
     }
 
